@@ -599,8 +599,9 @@ fn resolve_regions(
             let Some(size) = region.size(type_registry) else {
                 return Ok(None);
             };
-            if size == 0 && region.type_ref.is_array() {
-                // zero-sized regions that are arrays are ignored
+            if size == 0 && region.type_ref.is_array() && region.name.is_none() {
+                // zero-sized padding is ignored (a named zero-length array is a field the
+                // user may want to refer to, e.g. a flexible array member, and is kept)
                 return Ok(Some(()));
             }
 
